@@ -80,7 +80,7 @@ def k2_search(ctx, pid: str):
                 s = ASeq("Seq", [Piece("W", ZERO, N)])
             else:
                 s = "ACGT"
-            obj = AObj(cls, {"regex": Term("compiled-regex"), "pattern": Term("pattern")})
+            obj = AObj(cls, {"regex": Term("compiled-regex"), "pattern": Term("pattern"), "__open__": True})
             kw = {}
             if linear is not None:
                 kw["linear"] = linear
@@ -432,6 +432,12 @@ def k13_citations(ctx, pid: str):
         if len(stores) != 1:
             return [("K13.writer", name, False, "expected one qualifier store per citation, found %d" % len(stores))]
         _, obj, key, val = stores[0]
+        if appends:
+            lst = appends[0][1]
+            attached = (isinstance(lst, Term) and lst.op == "setdefault" and "annotations(rec)" in repr(lst) and "references" in repr(lst)) or any(
+                e[0] == "setitem" and "annotations(rec)" in repr(e[1]) and repr(e[2]) == "'references'" for e in o.path.effects)
+            out.append(("K13.list-attached", name, attached,
+                        "references are appended to %r, which is not (made) the record's own annotations['references']: a record without a reference list keeps its [n] citations but loses the references" % (lst,)))
         if asked:
             okapp = (len(appends) == 1 and appends[0][3] and appends[0][3][0] == CIT) if absent else not appends
             out.append(("K13.append-once", name, okapp,
